@@ -12,6 +12,7 @@ import (
 
 	"github.com/pingcap/kvproto/pkg/kvrpcpb"
 	"github.com/pingcap/kvproto/pkg/metapb"
+	"github.com/pkg/errors"
 	"github.com/tikv/client-go/v2/internal/locate"
 	"github.com/tikv/client-go/v2/internal/mockstore/mocktikv"
 	"github.com/tikv/client-go/v2/rawkv"
@@ -446,16 +447,16 @@ func (p pdFront) GetAllStores(ctx context.Context, opts ...opt.GetStoreOption) (
 // world
 
 type world struct {
-	sim     *simkit.Sim
-	sc      *Scenario
-	net     *simkit.Net
-	mvcc    *mocktikv.MVCCLevelDB
-	cluster *mocktikv.Cluster
-	topo    *rawTopo
-	front   *front
-	clients []*rawkv.Client
-	hist    [][]*OpRec
-	layout0 string
+	sim      *simkit.Sim
+	sc       *Scenario
+	net      *simkit.Net
+	mvcc     *mocktikv.MVCCLevelDB
+	cluster  *mocktikv.Cluster
+	topo     *rawTopo
+	front    *front
+	clients  []*rawkv.Client
+	hist     [][]*OpRec
+	layout0  string
 	regions0 int
 }
 
@@ -617,12 +618,9 @@ func errStr(err error) string {
 	if err == nil {
 		return ""
 	}
-	m := err.Error()
+	m := fmt.Sprintf("%T: %s", errors.Cause(err), err.Error())
 	if len(m) > 200 {
 		m = m[:200]
-	}
-	if m == "" {
-		m = "error"
 	}
 	return m
 }
